@@ -237,6 +237,9 @@ double _vnacal_new_solve_calc_pvalue(vnacal_new_solve_state_t *vnssp,
 
 			n_mean_squared = creal(sum_x * conj(sum_x)) / n;
 			value = ltp->vnlt_sumsq - n_mean_squared;
+			if (value < 0.0) {	/* rounding: identical samples */
+			    value = 0.0;
+			}
 			weight = 1.0 / (noise * noise +
 				n_mean_squared / n * tracking * tracking);
 			value *= weight;
